@@ -200,6 +200,13 @@ def main(ctx):
         lists = rng.sample(lists, 250)
     longer = [[rng.choice(basis) for _ in range(rng.randint(5, 10))] for _ in range(40 if ctx.quick else 150)]
     jobs = [(cfg, mem0, lst, False) for lst in lists] + [(cfg, mem0, lst, True) for lst in longer]
+    # multi-tag reads in which one-octet (odd-sized) replies are followed by others
+    small = [r for r in basis if r["svc"] == "read" and r["n"] == 1 and r["tag"] != 0]
+    odd = [r for r in small if r["typ"] == "SINT"]
+    for n in range(8 if ctx.quick else 60):
+        lst = [rng.choice(odd), rng.choice(small), rng.choice(odd), rng.choice(small), rng.choice(small)]
+        rng.shuffle(lst)
+        jobs.append((cfg, mem0, [rng.choice(basis)] + lst, True))
     # multi-hop connection paths, and a second client of the same host that vanishes while the session is open
     unknown = [r for r in basis if r["tag"] == 0]
     rconn0 = [j for j in res.json if j.get("k") == "rawconn" and j["f"]["kind"] == "fwdopen"]
